@@ -440,6 +440,33 @@ impl CommandBuilder<'_> {
         replace_str: &str,
         replacement: &OsStr,
     ) -> Vec<OsString> {
+        #[cfg(unix)]
+        {
+            // Substitute on the raw bytes: neither the line nor the argument has to be valid
+            // UTF-8, and both must reach the command unchanged.
+            use std::os::unix::ffi::{OsStrExt, OsStringExt};
+            let needle = replace_str.as_bytes();
+            if !needle.is_empty() {
+                return initial_args
+                    .iter()
+                    .map(|arg| {
+                        let haystack = arg.as_bytes();
+                        let mut replaced = Vec::with_capacity(haystack.len());
+                        let mut i = 0;
+                        while i < haystack.len() {
+                            if haystack[i..].starts_with(needle) {
+                                replaced.extend_from_slice(replacement.as_bytes());
+                                i += needle.len();
+                            } else {
+                                replaced.push(haystack[i]);
+                                i += 1;
+                            }
+                        }
+                        OsString::from_vec(replaced)
+                    })
+                    .collect();
+            }
+        }
         let replacement = replacement.to_string_lossy();
         initial_args
             .iter()
